@@ -118,8 +118,18 @@ def gen(repo: Path) -> str:
     catch_uni = bool(caught & {"UnicodeDecodeError", "UnicodeError", "ValueError", "Exception", "BaseException"})
     gates = [n for n in ast.walk(dr) if isinstance(n, ast.If) and isinstance(n.test, ast.Call)
              and getattr(n.test.func, "id", None) == "is_valid_ssdp_packet"]
-    if len(gates) != 1 or _caught_at(dr, gates[0]) != set() and False:
+    if len(gates) != 1:
         raise Untranslatable("datagram_received: the is_valid_ssdp_packet gate is not a single `if`")
+    # the decoder must run INSIDE the gate's body (the parser's IndexError is unreachable only behind it) ...
+    if not any(x is dec[0] for b in gates[0].body for x in ast.walk(b)):
+        raise Untranslatable("datagram_received: decode_ssdp_packet is not called inside `if is_valid_ssdp_packet(data):`")
+    # ... and the handler around it must end the delivery: its last statement is `return` (no fall-through to on_data,
+    # no re-raise)
+    for t in ast.walk(dr):
+        if isinstance(t, ast.Try) and any(x is dec[0] for b in t.body for x in ast.walk(b)):
+            for h in t.handlers:
+                if not h.body or not isinstance(h.body[-1], ast.Return) or any(isinstance(x, ast.Raise) for b in h.body for x in ast.walk(b)):
+                    raise Untranslatable("datagram_received: the handler around decode_ssdp_packet does not end in `return` (or re-raises)")
 
     # --- get_adjusted_url
     ga = _func(ssdp, "get_adjusted_url")
@@ -127,7 +137,18 @@ def gen(repo: Path) -> str:
     if len(us_) != 1:
         raise Untranslatable("get_adjusted_url: expected one urlsplit call")
     urlsplit_guard = bool(_caught_at(ga, us_[0]) & VALUE_ERR)
-    hostname_guard = not any(isinstance(n, ast.Assert) for n in ast.walk(ga))
+    # no assert, and an explicit `if not data.hostname: return url`
+    hostname_guard = (not any(isinstance(n, ast.Assert) for n in ast.walk(ga))) and any(
+        isinstance(n, ast.If) and isinstance(n.test, ast.UnaryOp) and isinstance(n.test.op, ast.Not)
+        and isinstance(n.test.operand, ast.Attribute) and n.test.operand.attr == "hostname"
+        and n.body and isinstance(n.body[-1], ast.Return) for n in ast.walk(ga))
+    # every handler of the function returns the URL unchanged (no re-raise, no fall-through)
+    for t in ast.walk(ga):
+        if isinstance(t, ast.Try):
+            for h in t.handlers:
+                if not (len(h.body) >= 1 and isinstance(h.body[-1], ast.Return) and isinstance(h.body[-1].value, ast.Name)
+                        and h.body[-1].value.id == "url"):
+                    raise Untranslatable("get_adjusted_url: a handler does not `return url`")
     ports = [n for n in ast.walk(ga) if isinstance(n, ast.Attribute) and n.attr == "port"]
     if not ports:
         raise Untranslatable("get_adjusted_url: no .port read")
@@ -185,6 +206,15 @@ def gen(repo: Path) -> str:
                  and len(c.args) == 1 and isinstance(c.args[0], ast.Name) and c.args[0].id == "location"]
         if any(isinstance(n, ast.Compare) and isinstance(n.ops[0], ast.In) for n in ast.walk(fn)) or _calls(fn, "startswith"):
             raise Untranslatable(f"{fn_name}: inline location test (substring / prefix) instead of one call on `location`")
+        # the test is ONE conjunction `bool(a and b and ...)` over exactly the values read (an `or` would accept more)
+        rets = [n for n in ast.walk(fn) if isinstance(n, ast.Return)]
+        if len(rets) != 1 or not (isinstance(rets[0].value, ast.Call) and getattr(rets[0].value.func, "id", None) == "bool"
+                                  and len(rets[0].value.args) == 1 and isinstance(rets[0].value.args[0], ast.BoolOp)
+                                  and isinstance(rets[0].value.args[0].op, ast.And)):
+            raise Untranslatable(f"{fn_name}: not a single `return bool(a and b and ...)`")
+        conj = rets[0].value.args[0].values
+        if any(isinstance(x, ast.BoolOp) for c in conj for x in ast.walk(c)) or len(conj) != len(keys) + len(tests):
+            raise Untranslatable(f"{fn_name}: the conjunction does not have one operand per header read (+ the location test)")
         return keys, tests
 
     s_keys, s_tests = validity("valid_search_headers")
